@@ -26,7 +26,13 @@ import json, os, subprocess, sys, time, shutil, concurrent.futures as cf
 
 sys.path.insert(0, os.path.dirname(os.path.abspath(__file__)))
 import vlib
-from vlib import Check, make_cfg, run_tlc, Infra
+from vlib import Check, make_cfg, Infra
+
+
+def run_tlc(*a, **kw):
+    """vlib.run_tlc with a bounded JVM heap (several TLC instances run side by side)."""
+    kw.setdefault("env_extra", {"JAVA_TOOL_OPTIONS": "-Xmx4g"})
+    return vlib.run_tlc(*a, **kw)
 
 PROP = "C20"
 HERE = os.path.dirname(os.path.abspath(__file__))
@@ -127,11 +133,15 @@ def judge(chk, part, subcmd, extra_args, report, origin="TLC-enumerated case"):
             chk.cov.setdefault("known_finding_cases", {})
             chk.cov["known_finding_cases"][kf["id"]] = chk.cov["known_finding_cases"].get(kf["id"], 0) + g["count"]
             continue
-        for e in g["examples"][:2]:
-            what = "%s (%d cases with this signature, %s, part %s)\n%s\n%s" % (
-                g["sig"], g["count"], origin, part, e.get("detail", ""), "\n".join(e.get("diff") or []))
-            chk.violation(what, {"property": PROP, "part": subcmd, "args": list(extra_args), "case": e.get("case"),
-                                 "kind": g["kind"], "sig": g["sig"], "detail": e.get("detail", "")})
+        seen = chk.cov.setdefault("_reported_sigs", {})
+        seen[g["sig"]] = seen.get(g["sig"], 0) + g["count"]
+        if seen[g["sig"]] > g["count"]:
+            continue          # this signature was already reported from another configuration
+        e = ex
+        what = "%s (%d cases with this signature in this configuration, %s, part %s)\n%s\n%s" % (
+            g["sig"], g["count"], origin, part, e.get("detail", ""), "\n".join(e.get("diff") or []))
+        chk.violation(what, {"property": PROP, "part": subcmd, "args": list(extra_args), "case": e.get("case"),
+                             "kind": g["kind"], "sig": g["sig"], "detail": e.get("detail", "")})
     if mism and not chk.violations:
         for g in mism[:3]:
             e = g["examples"][0]
@@ -142,7 +152,8 @@ def judge(chk, part, subcmd, extra_args, report, origin="TLC-enumerated case"):
 
 
 def corpus_lines(r):
-    return [json.dumps(rec, separators=(",", ":")) if not isinstance(rec, str) else rec for rec in r.corpus]
+    """One ndjson line per DISTINCT corpus record (TLC may evaluate a printing action more than once)."""
+    return list(dict.fromkeys(json.dumps(rec, separators=(",", ":"), sort_keys=True) for rec in r.corpus))
 
 
 # --------------------------------------------------------------------------------------------
@@ -173,7 +184,7 @@ def split_strict(binary, strat, inv, maxlen, tracedir):
     name = "Split_strict_%s_%s" % (inv.replace("Inv_", ""), strat)
     trace = os.path.join(tracedir, name + ".json")
     cfg = make_cfg("Spec", split_consts(STRATS[strat], maxlen), [inv], [])
-    r = run_tlc("MC_Split", name + ".cfg", cfg_text=cfg, workers=2, timeout=600, extra=["-dumpTrace", "json", trace])
+    r = run_tlc("MC_Split", name + ".cfg", cfg_text=cfg, workers=2, timeout=1800, extra=["-dumpTrace", "json", trace])
     case = None
     if r.violated and os.path.exists(trace):
         with open(trace) as f:
@@ -190,12 +201,12 @@ def part_split(binary, tier):
     jobs = []
     with cf.ThreadPoolExecutor(max_workers=3 if quick else 4) as ex:
         if quick:
-            jobs.append(ex.submit(split_full, binary, "Split_all_len5", split_consts("c_StratsAll", 5), 6, 900))
+            jobs.append(ex.submit(split_full, binary, "Split_all_len5", split_consts("c_StratsAll", 5, "c_AlphaQuick"), 6, 1500))
         else:
             for s, c in STRATS.items():
-                jobs.append(ex.submit(split_full, binary, "Split_%s_len7" % s, split_consts(c, 7), 4, 3000))
+                jobs.append(ex.submit(split_full, binary, "Split_%s_len7" % s, split_consts(c, 7, "c_AlphaQuick" if s in ("fixed", "chunker") else "c_Alpha"), 4, 6000))
             for s in ("code", "markdown"):
-                jobs.append(ex.submit(split_full, binary, "Split_%s_wide_len6" % s, split_consts(STRATS[s], 6, "c_AlphaWide"), 4, 3000))
+                jobs.append(ex.submit(split_full, binary, "Split_%s_wide_len5" % s, split_consts(STRATS[s], 5, "c_AlphaWide"), 4, 6000))
         tracedir = vlib.scratch("c20-trace-")
         sjobs = [ex.submit(split_strict, binary, s, inv, 4 if quick else 5, tracedir)
                  for s in STRATS for inv in ("Inv_NoLoss", "Inv_Bounded")]
@@ -391,14 +402,14 @@ def adaptive_cfgs(tier):
     two = dict(Nodes="<- c_N2", Ghosts="<- c_Ghost9", Rels="<- c_Rels2", TargetSets="<- c_T2G", SeedSeqs="<- c_Seeds2G",
                Strategies="<- c_Both", Depths="{2}", Caps="{2, 3}", Budgets="{2}", EmitBudgets="{1, 2, 3}", Profiles="<- c_Prof2")
     if quick:
-        return [("Adaptive_3nodes_allgraphs", base, 6), ("Adaptive_2rel_ghost_bothstrategies", two, 6)]
+        return [("Adaptive_3nodes_allgraphs", base, 6), ("Adaptive_2rel_ghost_bothstrategies", dict(two, TargetSets="<- c_T2GSmall"), 4)]
     return [
-        ("Adaptive_3nodes_allgraphs", dict(base, Caps="{1, 2, 3, 4}", Strategies="<- c_Both", Budgets="{1, 2, 4}"), 6),
+        ("Adaptive_3nodes_allgraphs", dict(base, Caps="{1, 2, 3, 4}", Strategies="<- c_Both", Budgets="{2, 4}"), 6),
         ("Adaptive_2rel_ghost_bothstrategies", dict(two, Depths="{1, 2}", Caps="{1, 2, 3, 4}"), 4),
-        ("Adaptive_3nodes_2rel_ghost", dict(Nodes="<- c_N3", Ghosts="<- c_Ghost9", Rels="<- c_Rels2", TargetSets="<- c_T3GDeg1", SeedSeqs="<- c_Seeds3G",
+        ("Adaptive_3nodes_2rel_ghost", dict(Nodes="<- c_N3", Ghosts="<- c_Ghost9", Rels="<- c_Rels2", TargetSets="<- c_T3GDeg1", SeedSeqs="<- c_Seeds3GFew",
                                             Strategies="<- c_Graph", Depths="{2}", Caps="{2, 4}", Budgets="{3}", EmitBudgets="{1, 3}", Profiles="<- c_Prof3"), 6),
         ("Adaptive_4nodes_deg2_hubs", dict(Nodes="<- c_N4", Ghosts="<- c_NoGhost", Rels="<- c_Rels1", TargetSets="<- c_T4Deg2Hub", SeedSeqs="<- c_Seeds4",
-                                           Strategies="<- c_Graph", Depths="{1, 2, 3}", Caps="{2, 4}", Budgets="{4}", EmitBudgets="{2, 4, 7}", Profiles="<- c_Prof4One"), 8),
+                                           Strategies="<- c_Graph", Depths="{2, 3}", Caps="{3, 5}", Budgets="{4}", EmitBudgets="{2, 4, 7}", Profiles="<- c_Prof4One"), 8),
     ]
 
 
@@ -421,9 +432,10 @@ def adaptive_meta(consts):
 
 def adaptive_one(binary, name, consts, workers):
     cfg = make_cfg("FairSpec", consts, ADAPT_INVS, ["Prop_Progress", "Prop_Terminates"])
-    r = run_tlc("MC_Adaptive", name + ".cfg", cfg_text=cfg, workers=workers, timeout=3000)
-    lines = group_adaptive(r.corpus)
-    nrec = len(r.corpus)
+    r = run_tlc("MC_Adaptive", name + ".cfg", cfg_text=cfg, workers=workers, timeout=6000)
+    recs = [json.loads(x) for x in corpus_lines(r)]
+    lines = group_adaptive(recs)
+    nrec = len(recs)
     r.corpus = []
     d = vlib.scratch("c20-ameta-")
     try:
@@ -443,7 +455,7 @@ def adaptive_strict(binary, tracedir):
     consts = dict(Nodes="<- c_N3", Ghosts="<- c_NoGhost", Rels="<- c_Rels1", TargetSets="<- c_T3Deg1", SeedSeqs="<- c_Seeds3",
                   Strategies="<- c_Greedy", Depths="{2}", Caps="{1, 2}", Budgets="{2}", EmitBudgets="{2}", Profiles="<- c_Prof3One")
     trace = os.path.join(tracedir, name + ".json")
-    r = run_tlc("MC_Adaptive", name + ".cfg", cfg_text=make_cfg("Spec", consts, ["Inv_Cap"], []), workers=2, timeout=600,
+    r = run_tlc("MC_Adaptive", name + ".cfg", cfg_text=make_cfg("Spec", consts, ["Inv_Cap"], []), workers=2, timeout=1800,
                 extra=["-dumpTrace", "json", trace])
     case, rep = None, None
     if r.violated and os.path.exists(trace):
@@ -531,7 +543,12 @@ def run(tier):
     binary = vlib.build_harness(cmd="c20")
     parts = []
     with cf.ThreadPoolExecutor(max_workers=4) as ex:
-        futs = [ex.submit(f, binary, tier) for f in (part_split, part_adaptive, part_compress, part_explore)]
+        def timed(f):
+            t0 = time.time()
+            p = f(binary, tier)
+            p.info["wall_s"] = round(time.time() - t0, 1)
+            return p
+        futs = [ex.submit(timed, f) for f in (part_split, part_adaptive, part_compress, part_explore)]
         errs = []
         for f in futs:
             try:
@@ -563,6 +580,9 @@ def run(tier):
         info.pop("vocab", None)
         cov["parts"][p.name] = info
     cov["traces_validated_against_impl"] = model_cases
+    rs = cov.pop("_reported_sigs", {})
+    if rs:
+        cov["violating_cases_by_signature"] = rs
     cov["exhaustive"] = True
     cov["rule"] = ("every case TLC enumerated within the bounds (split: every text x strategy x size x overlap; compress: every kind sequence x language tag, "
                    "refined to real words %s times; adaptive: every graph x seeds x depth x cap, each tabulated budget/profile run twice) is executed on the real "
@@ -600,11 +620,16 @@ def replay_file(path):
     d = vlib.scratch("c20-rp-")
     try:
         args = []
-        if sub == "explore":   # the recorded input is a raw split case or an analysis input
-            if not isinstance(case, dict) or "st" not in case:
-                print(json.dumps(rec, indent=1)[:3000])
-                print("replay: analysis-call inputs are re-run through `c20 explore -seed` (seed in the evidence file); recorded input above")
-                return vlib.EXIT_INFRA
+        if sub == "explore" and not (isinstance(case, dict) and "st" in case):
+            # an analysis call (Tokenize / Analyze / Compress) on a recorded arbitrary input
+            fout = os.path.join(d, "out.json")
+            pr = subprocess.run([binary, "explore", "-hex", case.get("hex", ""), "-out", fout], capture_output=True, text=True, timeout=600)
+            if pr.returncode != 0:
+                raise Infra("c20 explore -hex failed: " + pr.stderr[-2000:])
+            with open(fout) as f:
+                rep = json.load(f)
+            return finish_replay(rec, path, case, rep)
+        if sub == "explore":   # a raw split case found by the exploration
             sub = "split"
         if sub == "adaptive":
             mf = os.path.join(d, "meta.json")
@@ -615,6 +640,10 @@ def replay_file(path):
         rep = run_binary(binary, sub, [json.dumps(case)], extra_args=args, shards=1)
     finally:
         shutil.rmtree(d, ignore_errors=True)
+    return finish_replay(rec, path, case, rep)
+
+
+def finish_replay(rec, path, case, rep):
     groups = rep.get("groups", [])
     print(json.dumps({"case": case, "divergences": [{"sig": g["sig"], "detail": g["examples"][0].get("detail"), "diff": g["examples"][0].get("diff")} for g in groups]}, indent=1))
     if any(g["kind"] == rec.get("kind") for g in groups) or (groups and not rec.get("kind")):
